@@ -771,3 +771,151 @@ def check_c16(run):
                       "is run on the real code next to the default parser and recorded as one composite event; TLC evaluates neutrality outside the trigger, exact predictions "
                       "(specification run with the option record / the standard's setters) and postconditions; TLC also checks on the specification that each modelled trigger is "
                       "sufficient; distinct = composite events")
+
+
+# --------------------------------------------------------------------------------------------
+# C17 / C18 - canonicalizer fixed point and spelling classes
+# --------------------------------------------------------------------------------------------
+COMPOSED = ["canon:remove_userinfo", "canon:remove_port", "canon:remove_fragment", "canon:sort_keys", "canon:sort_param", "canon:default_scheme", "canon:repeated_decode",
+            "canon:remove_userinfo+remove_port+remove_fragment+sort_keys+default_scheme+repeated_decode", "canon:remove_fragment+sort_param+repeated_decode"]
+ALL_STRING_PROFILES = ["WhatWg", "WhatWgSortQuery"] + COMPOSED
+UNRESERVED = "abcxyzABZ0179-._~"
+
+
+def canon_family(run, name, mode, k, big):
+    from .families import CanonFamily
+    r = rng(run.seed, "canon-" + name)
+    def word(n):
+        return "".join(r.choice(UNRESERVED) for _ in range(n))
+    def okword(w):
+        return w not in (".", "..")
+    segs = [w for w in [word(1), word(2), "a~", "-_"] if okword(w)]
+    schemes = r.sample(["http", "https", "ftp", "ws", "wss"], 3 if big else 2)
+    hosts = r.sample(["h", "a-b.c0", "example.com", "1.2.3.4", "[::1]", "x1.y-2.z"], 3 if big else 2)
+    creds = r.sample([[], ["u"], ["u", "p"], ["", "p"]], 2)
+    ports = [[], [r.choice(["8", "8080", "0", "65535"])]]
+    return CanonFamily(name, mode, schemes, creds, hosts, ports, r.sample(segs, 2), 2, [word(1), ""], [word(2), ""], 1 if not big else 2, [word(2)], k,
+                       invariants=["StdClassInv"] if mode == "class" else [])
+
+
+def check_c17(run):
+    from .families import CanonFamily
+    run.build_harness()
+    run.selftest()
+    q = run.tier == "quick"
+    # (1) option-composed profiles, WhatWg, WhatWgSortQuery: ALL strings (the C01 families without base)
+    keep = ("struct", "path", "class", "creds", "host") if q else ("struct", "path", "class", "creds", "host", "file", "dotdeep", "ws", "brackets")
+    fams = [f for f in c01_families(run) if f.name in keep]
+    L = filler_letter(run.seed)
+    fams.append(Family("idemquery", "&=+%25a1" + L, 4 if q else 5, prefixes=["http://h/?", "x:o?"], invariants=["PtrOk"]))
+    for f in fams:
+        f.bases, f.nobase = [], True
+        if q and f.name in ("struct", "path"):
+            f.maxlen = 3
+        if q and f.name == "host":
+            f.maxlen = 2
+        mod = f.write(run.scratch)
+        bad, n = run.tlc_events(mod, f.name, "idem", cfg=mod + ".cfg", chunks=14, events_args=["--names", ",".join(ALL_STRING_PROFILES)])
+        run.samples.append("[%s/idem] %d events (input x profile: y = p(x), z = p(y)) for %d option-composed profiles" % (f.name, n, len(ALL_STRING_PROFILES)))
+        absorb_events(run, bad, f.name)
+        run.distinct += n
+    # (2) GoogleSafeBrowsing / Semantic (and the others again): every spelling of the ordinary-web-URL grammar
+    gf = canon_family(run, "grammar", "spell", 1 if q else 2, not q)
+    mod = gf.write(run.scratch)
+    bad, n = run.tlc_events(mod, gf.name, "idem", cfg=mod + ".cfg", chunks=14, events_args=["--names", "GoogleSafeBrowsing,Semantic,WhatWgSortQuery,canon:repeated_decode"])
+    run.samples.append("[grammar/idem] %d events over the ordinary-web-URL grammar (schemes %s, hosts %s) with up to %d re-spelled characters" % (n, gf.schemes, gf.hosts, gf.k))
+    absorb_events(run, bad, gf.name)
+    run.distinct += n
+    # pinned reproducers of the open findings (re-run on every invocation; they print KNOWN-FINDING while they still fail)
+    from .core import cps
+    pf = os.path.join(run.scratch, "pinned_c17.txt")
+    with open(pf, "w") as f:
+        for s_ in ["http://h/?=&a", "http://h/?b=%2561&a=1", "http://h/?%2b"]:
+            f.write(json.dumps(json.dumps({"t": "u", "in": cps(s_)})) + "\n")
+    bad, n = run.tlc_events(None, "pinned", "idem", source_file=pf, chunks=1, events_args=["--names", "GoogleSafeBrowsing,WhatWgSortQuery,canon:repeated_decode"])
+    absorb_events(run, bad, "pinned")
+    run.assumptions += ["for GoogleSafeBrowsing and Semantic the specification generates the domain (ordinary-web-URL grammar, spec/Canon.tla) and states the law; it does not predict their output"]
+    return run.finish("model_checking", "fixed-point law z = p(p(x)) = p(x) evaluated by TLC on outputs observed from the real code: for WhatWg, WhatWgSortQuery and 9 option-composed "
+                      "profiles on every string of the parse families (all strings domain); for GoogleSafeBrowsing and Semantic on every spelling (literal / escaped / nested, "
+                      "either hex case) of the grammar URLs enumerated by TLC; distinct = events")
+
+
+def check_c18(run):
+    run.build_harness()
+    run.selftest()
+    q = run.tier == "quick"
+    gf = canon_family(run, "classes", "class", 2 if q else 3, False)
+    if q:
+        gf.maxsegs, gf.maxpairs = 1, 1
+    mod = gf.write(run.scratch)
+    profs = ["GoogleSafeBrowsing", "Semantic", "canon:repeated_decode", "WhatWg", "WhatWgSortQuery", "canon:remove_port+sort_keys", "canon:remove_fragment+sort_param+repeated_decode"]
+    bad, n = run.tlc_events(mod, gf.name, "class", cfg=mod + ".cfg", chunks=14, events_args=["--names", ",".join(profs)])
+    run.samples.append("[classes] %d class events: every abstract URL of the grammar x all combinations of up to %d variations x %d profiles" % (n, gf.k, len(profs)))
+    absorb_events(run, bad, gf.name)
+    run.distinct += n
+    run.assumptions += ["classes that use escapes or an empty fragment are demanded only of GoogleSafeBrowsing, Semantic and profiles with repeated percent-decoding; "
+                        "classes built from differences the standard itself normalises are demanded of every profile (and proved of the specification by TLC: StdClassInv)"]
+    return run.finish("model_checking", "TLC enumerates abstract URLs of the ordinary-web-URL grammar and, for each, the class of all spellings obtained by up to 2-3 variations "
+                      "(case of scheme/host, hex case, optional and nested escapes, explicit default / empty port, '.', 'x/..' also as %2e, tab/LF/CR, surrounding whitespace, "
+                      "empty fragment); every spelling is canonicalized by the real profiles and TLC checks that all outputs of a class coincide; distinct = class events")
+
+
+# --------------------------------------------------------------------------------------------
+# C02 - total API under every configuration
+# --------------------------------------------------------------------------------------------
+def check_c02(run):
+    from .core import cps
+    run.build_harness()
+    run.selftest()
+    q = run.tier == "quick"
+    L = filler_letter(run.seed)
+    # design: the specification's parser terminates (liveness under weak fairness) and never leaves the input
+    live = [f for f in c01_families(run) if f.name == "struct"][0]
+    live.maxlen, live.liveness = (3 if q else 4), True
+    live.name = "struct_live"
+    mod = live.write(run.scratch, emit=False)
+    run.tlc(mod, cfg=mod + ".cfg", timeout=900)
+    run.samples.append("[design] <>done under weak fairness and PtrOk hold on the struct family: the specification's parser terminates on every input and never indexes outside it")
+    nasty = [
+        Family("nasty", [0x110080, 0x1100FF, 0x1100C0, 0, ord("/"), ord(":"), ord("@"), ord("%"), ord("["), ord("\\"), ord("?"), ord("#"), ord(L), ord("|")], 2 if q else 3,
+               prefixes=["", "http://", "http://h/", "file:", "x:", "x://", "http://h:", "//"], invariants=["PtrOk"]),
+        Family("nastyhost", [0x110080, 0x1100FF, ord("."), ord("a"), ord("%"), ord("1"), 0xE9], 3 if q else 4, prefixes=["http://", "file://", "x://"], suffixes=["", "/p"], invariants=["PtrOk"]),
+    ]
+    for fam in nasty:
+        mod = fam.write(run.scratch)
+        bad, n = run.tlc_events(mod, fam.name, "robust", cfg=mod + ".cfg", chunks=12, tool="robust",
+                                events_args=["--seed", str(run.seed), "--tier", run.tier, "--cfg-per-input", "6" if q else "24"])
+        absorb_robust(run, bad, fam.name)
+        run.distinct += n
+    # pumped long inputs and degenerate ones
+    pf = os.path.join(run.scratch, "long_inputs.txt")
+    longs = ["", " ", "\x00", ":", "/", "//", "?", "#", "@", "%", "[", "]", "\udcff", "\udcff\udcfe", "http://\udcff\udcfe/", "http://a\udcffb\udc80c/"]
+    for p, u, s in [("http://", "@", "h/"), ("http://", "a", "@h/"), ("http://h/", "a/", ""), ("http://h/", "../", ""), ("http://h/?", "a=b&", ""), ("x:", "%", ""),
+                    ("http://", "\udcff", "/"), ("http://[", ":", "]"), ("http://", "1.", "1"), ("", "a", ":b"), ("file:///", "C|/", ""), ("http://h/#", "\u00e9", "")]:
+        longs.append(p + u * (300 if q else 3000) + s)
+    with open(pf, "w") as f:
+        for s_ in longs:
+            f.write(json.dumps(json.dumps({"t": "u", "in": cps(s_)})) + "\n")
+    bad, n = run.tlc_events(None, "long", "robust", source_file=pf, chunks=4, tool="robust", events_args=["--seed", str(run.seed), "--tier", run.tier, "--cfg-per-input", "40" if q else "200"])
+    absorb_robust(run, bad, "long")
+    run.distinct += n
+    run.samples.append("robust event: {cfg: 'lax_host+accept_invalid', in: 'http://\\xff\\xfe/', calls: ~900 public calls (parse, 8 bases, resolve, clone, 9 setters x 16 nasty values, SearchParams ops, getters), bad: []}")
+    run.exhaustive = False
+    run.assumptions += ["scope as the property's quantifier lists it: BasicParser with arbitrary override values and nil pointer arguments are not driven",
+                        "quick: every boolean option alone and every pair (pairwise coverage) + valued options + 20 random mixtures + 4 profiles; thorough: all 2^10 subsets of the boolean options + 200 mixtures"]
+    return run.finish("model_checking", "design: TLC proves termination (<>done under WF) and cursor bounds of the specification's parser on the struct family; binding: for every input of the nasty "
+                      "families (raw invalid bytes at every position incl. several in a host, NUL, delimiters only) and pumped long inputs, under configurations rotating through the whole "
+                      "configuration list, ~900 public calls per (input, configuration) run under recover() and a watchdog; TLC validates each event against the action "
+                      "result' in {error} U AnyUrl; distinct = (input, configuration) events")
+
+
+def absorb_robust(run, bad, family):
+    n = 0
+    for ev, verdicts in bad:
+        n += 1
+        if n <= 8:
+            b = ev.get("bad", [{}])[0]
+            run.violation("configuration %r, input %r: %s in %s: %s" % (ev.get("cfg"), from_cps(ev.get("in", [])), b.get("what"), b.get("call"), (b.get("msg") or "")[:200]),
+                          {"property": "C02", "kind": "robust", "family": family, "event": ev})
+    if n:
+        run.coverage_notes.setdefault("events_not_ok_by_family", {})[family] = n
